@@ -168,7 +168,11 @@ Definition c13_step (rf0 : nat) (quiescent : bool) (prev : obs) (e : event) (cur
        else negb (is_ack cur) && untouched prev cur
    | _ => true
    end)
-  && (match (if quiescent then o_checkpoint cur else None) with
+  (* checked at quiescent points and at the moment a checkpoint is recorded (whatever is pending then) *)
+  && (match (match o_checkpoint cur with
+             | Some s => if quiescent || negb (onat_eqb (o_checkpoint prev) (Some s)) then Some s else None
+             | None => None
+             end) with
       | None => true
       | Some s =>
           Nat.eqb (count_rw (o_replicas cur)) rf0 && Nat.eqb (length (o_replicas cur)) rf0
